@@ -12,6 +12,7 @@ import Ops.SeqEnc
 import Ops.EncBuf
 import Ops.C0506
 import Ops.KdTree
+import Ops.KdEnc
 /- Line-protocol driver of the executable model: one op per line in, one line out. -/
 open Draco
 
@@ -29,7 +30,8 @@ def allOps : List (String × (List String → String)) := List.flatten [
   Ops.seqEncOps,
   Ops.encBufOps,
   Ops.c0506Ops,
-  Ops.kdTreeOps]
+  Ops.kdTreeOps,
+  Ops.kdEncOps]
 
 def dispatch (line : String) : String :=
   match (line.trimAscii.toString.splitOn " ").filter (· ≠ "") with
